@@ -1,6 +1,7 @@
 package rules
 
 import (
+	"go/constant"
 	"go/token"
 	"go/types"
 	"strings"
@@ -1064,14 +1065,49 @@ func c12(c *core.Ctx, r *core.Report) {
 	rule(r, "C12.R2", "pass-through: NewDistribution(none) and intervals ≤ 100 ms return the interval and rate parameters themselves; otherwise the sub-tick is the constant 100 ms and tickSteps = interval.Milliseconds() / (100 ms).Milliseconds()", func() {
 		nd := c.MustFn(apkg, "NewDistribution")
 		sawNone := false
-		for _, ret := range an.Returns(nd) {
-			for _, g := range an.GuardsOf(ret.Block()) {
-				gd := an.D().Of(g.Cond)
-				if strings.Contains(gd, "== \""+"none"+"\"") && g.Polarity {
-					sawNone = true
-					ok0 := an.Strip(ret.Results[0]) == ssa.Value(durParam(nd)) && durParam(nd) != nil
-					ok1 := an.Strip(ret.Results[1]) == ssa.Value(rateParam(nd)) && rateParam(nd) != nil
-					r.Check(ok0 && ok1, "NewDistribution#none", an.Pos(c, ret), "none returns the parameters unchanged", "distribution none returns ("+an.D().Of(ret.Results[0])+", "+an.D().Of(ret.Results[1])+") instead of its parameters")
+		isNoneLit := func(cond ssa.Value, val bool) bool {
+			bo, ok := cond.(*ssa.BinOp)
+			if !ok || !((bo.Op == token.EQL && val) || (bo.Op == token.NEQ && !val)) {
+				return false
+			}
+			for _, side := range []ssa.Value{bo.X, bo.Y} {
+				if k, isK := an.Strip(side).(*ssa.Const); isK && k.Value != nil && k.Value.Kind() == constant.String && constant.StringVal(k.Value) == "none" {
+					return true
+				}
+			}
+			return false
+		}
+		if paths, err := an.DecisionPaths(nd, 256); err == nil {
+			// along every path taken for distribution none, the results are the parameters (read along the path: the
+			// results may be merged before a common return)
+			for _, p := range paths {
+				if p.Ret == nil || len(p.Ret.Results) < 2 {
+					continue
+				}
+				none := false
+				for _, l := range p.Lits {
+					if isNoneLit(l.Cond, l.Val) {
+						none = true
+					}
+				}
+				if !none {
+					continue
+				}
+				sawNone = true
+				r0, r1 := p.OnPath(p.Ret.Results[0]), p.OnPath(p.Ret.Results[1])
+				ok0 := an.Strip(r0) == ssa.Value(durParam(nd)) && durParam(nd) != nil
+				ok1 := an.Strip(r1) == ssa.Value(rateParam(nd)) && rateParam(nd) != nil
+				r.Check(ok0 && ok1, "NewDistribution#none", an.Pos(c, p.Ret), "none returns the parameters unchanged", "distribution none returns ("+an.D().Of(r0)+", "+an.D().Of(r1)+") instead of its parameters")
+			}
+		} else {
+			for _, ret := range an.Returns(nd) {
+				for _, g := range an.GuardsOf(ret.Block()) {
+					if isNoneLit(g.Cond, g.Polarity) {
+						sawNone = true
+						ok0 := an.Strip(ret.Results[0]) == ssa.Value(durParam(nd)) && durParam(nd) != nil
+						ok1 := an.Strip(ret.Results[1]) == ssa.Value(rateParam(nd)) && rateParam(nd) != nil
+						r.Check(ok0 && ok1, "NewDistribution#none", an.Pos(c, ret), "none returns the parameters unchanged", "distribution none returns ("+an.D().Of(ret.Results[0])+", "+an.D().Of(ret.Results[1])+") instead of its parameters")
+					}
 				}
 			}
 		}
